@@ -155,6 +155,24 @@ def drive_store(Bits, n, v):
   _try(il, t2, v)
 
 
+def check_class_ctor(sh, n, v):
+  """BitsN( v ) through the CLASS mk_bits( n ) (generated on demand for the widths that are not predefined; its __init__ may
+  bypass Bits.__init__ where the contracts sit): accepted iff -2^(n-1) <= v <= 2^n - 1, and then the value is v mod 2^n"""
+  from pymtl3.datatypes import mk_bits
+  legal = -(1 << (n - 1)) <= v <= (1 << n) - 1
+  sh.count("class_constructor_checks")
+  try:
+    x = mk_bits(n)(v)
+  except (ValueError, OverflowError, AssertionError):
+    if legal:
+      sh.violation("BitsN-constructor-rejects-a-legal-value", {"n": n, "v": hex(v)})
+    return
+  if not legal:
+    sh.violation("BitsN-constructor-accepts-an-out-of-range-value", {"n": n, "v": hex(v), "stored": hex(int(x._uint))}); return
+  if x.nbits != n or int(x._uint) != v & ((1 << n) - 1) or not (0 <= int(x._uint) < (1 << n)):
+    sh.violation("BitsN-constructor-stores-another-value", {"n": n, "v": hex(v), "stored": hex(int(x._uint)), "nbits": x.nbits})
+
+
 def drive_conv(x):
   int(x); x.uint(); x.int(); bool(x); operator.index(x); hash(x); x.clone(); copy.deepcopy(x); ~x; x.to_bits()
   hash(x.clone())
@@ -227,6 +245,8 @@ def run_rand(sh):
         done += len(OPS) + 11
       sh.fp("int", n if n in WCLASSES else "other")
     elif kind == 4:    # stores
+      for k in ((1 << n), (1 << n) - 1, (1 << n) + 1, -(1 << (n - 1)), -(1 << (n - 1)) - 1, 0, rng.choice(boundary_ints(rng, n))):
+        check_class_ctor(sh, n, k); done += 1
       for k in rng.sample(boundary_ints(rng, n), 6):
         drive_store(Bits, n, k); done += 3
       m = rng.choice([n, max(1, n - 1), min(1023, n + 1)])
